@@ -21,7 +21,7 @@ from __future__ import annotations
 
 import itertools
 
-from ..lib import (axes_all_but, evaluator, Decider, rec_fields, show, walk, strip_casts, is_ext_call, fn_name, method_name,
+from ..lib import (axes_all_but, per_param_init, evaluator, Decider, rec_fields, show, walk, strip_casts, is_ext_call, fn_name, method_name,
                    path_str, ext_name)
 from ..spec import spec_term, Comparer
 from ..terms import T, sym, const, is_const, cval, NONE, ext
@@ -33,7 +33,7 @@ ASSUMPTIONS = ['beta2 in (0, 1], weights beta2 and w are non-negative', 'jnp.max
 def run(ctx):
   m = ctx.model
   fu = m.func('sm3', 'sm3.update_fn')
-  fi0 = m.func('sm3', 'sm3.init_fn._init')
+  fi0 = m.func('sm3', 'sm3.init_fn')
   ctx.analysed(fu, fi0, m.func('sm3', 'sm3._moving_averages'), m.func('sm3', 'sm3._sketch_diagonal_statistics'),
                m.func('sm3', 'sm3._get_expanded_shape'), m.func('sm3', 'sm3._moving_averages_momentum'))
   cmpr = Comparer(transparent_calls={'_quantize_momentum'})
@@ -136,7 +136,7 @@ def run(ctx):
              'with beta2 == 1 the statistic must be bound + g^2 (weight 1 on both)', ctx.loc(fu), sample='T = bound + g^2')
   # init
   ev = evaluator(m)
-  s0 = rec_fields(ev.run(fi0))
+  s0 = rec_fields(per_param_init(ev, fi0, sym('spec', 'param')))
   if s0 is None:
     raise AnalysisError('sm3 init does not build ParameterStats')
   acc0 = s0['diagonal_statistics']
